@@ -946,7 +946,7 @@ func (c *callable) Value(env *env) reflect.Value {
 		}
 		for _, arg := range args {
 			t := kindToType[arg.Kind()]
-			nvm.setFromReflectValue(r[t], arg)
+			nvm.setFromReflectValue(r[t], addressableCopy(arg))
 			r[t]++
 		}
 		err := nvm.runFunc(fn, vars)
